@@ -62,6 +62,43 @@ pub const SPECIAL_ROOTS: &[(&str, &str)] = &[
     ("rook endgame", "8/5pk1/6p1/R7/5P2/6P1/r4K2/8 w - - 0 40"),
 ];
 
+/// Roots at the extremes of what a position can hold (found by the local search in extreme.rs,
+/// material a game can reach): lists of moves as long as chess allows. A move list, a tactical
+/// list or an evasion list kept in a container of fixed capacity is invisible on ordinary
+/// positions. (name, FEN, objective, least count the rules model must report: start-up guard.)
+pub const EXTREME_ROOTS: &[(&str, &str, &str, i64)] = &[
+    ("218 legal moves (published record position)", "R6R/3Q4/1Q4Q1/4Q3/2Q4Q/Q4Q2/pp1Q4/kBNN1KB1 w - - 0 1", "legal", 218),
+    ("218 legal moves (second published position)", "3Q4/1Q4Q1/4Q3/2Q4R/Q4Q2/3Q4/1Q4Rp/1K1BBNNk w - - 0 1", "legal", 218),
+    ("216 legal moves", "bBbNnNBk/3Q3p/Q4R2/2Q4Q/4Q3/1Q4Q1/1K1Q4/R4Q2 w - - 0 1", "legal", 216),
+    ("132 tactical moves", "R1b1Q1rr/rQ4Qr/3k3N/Q5Qr/2Q1Q1pN/6R1/nQr2QbB/bKbBqnb1 w - - 0 1", "tactical", 132),
+    ("126 tactical moves, many promotions", "b1r1qq1b/1PNP2P1/bKpQr2R/pQp2Q1B/7k/RpQrQ3/b5Q1/1BN2nn1 w - - 0 1", "tactical", 126),
+    ("120 tactical moves, four promoting pawns", "qRn1b1b1/QBNPNP1P/4npr1/5QnK/1kBQ3p/6Qp/Q4p1b/b1QnR1r1 w - - 0 1", "tactical", 120),
+    ("87 captures, seven pawns capturing into promotion", "rrqbrnrq/1PPPPPPP/3N1N2/1b2R2n/Q3n3/2NBKBk1/pR2p3/1q1r4 w - - 0 1", "captures", 87),
+    ("87 captures (second)", "bnbnqrrr/KPPPPPP1/2N1N1N1/2Q1b2R/1r1pRq1r/3N4/k2B1B2/2b1q3 w - - 0 1", "captures", 87),
+    ("42 legal moves while in check", "4rRr1/rkqP1P1n/1nNQ1QNq/3Q1Qpb/3Q1Bq1/b2Q1BN1/2R4b/1b2K3 w - - 0 1", "evasions", 42),
+    ("42 legal moves while in check (second)", "4r3/2pP1Pq1/2rQ1B2/2NQ1B1k/1nNQ1QN1/pb1Q1Q2/pbR3R1/4K3 w - - 0 1", "evasions", 42),
+    ("100 quiet checking moves", "2N1Q3/2Q4B/Q4Q1K/3k4/NQ4Q1/4Q3/2Q4R/1BR2Q2 w - - 0 1", "checks", 100),
+    ("eight pawns on the seventh against a full back rank", "rnrnrnrn/PPPPPPPP/8/8/8/8/8/K6k w - - 0 1", "tactical", 52),
+];
+
+/// The extreme roots with their colour mirrors; Err = machinery error (a root lost its count).
+pub fn extreme_roots() -> Result<Vec<Root>, String> {
+    let mut out = Vec::new();
+    for (name, fen, what, least) in EXTREME_ROOTS {
+        let p = Pos::from_fen(fen).map_err(|e| format!("extreme root {:?}: {}", fen, e))?;
+        p.validity().map_err(|e| format!("extreme root {:?} is not a valid position: {}", fen, e))?;
+        let got = crate::extreme::objective(&p, what);
+        if got < *least {
+            return Err(format!("extreme root {:?} ({}) has {} = {}, needs {}", fen, name, what, got, least));
+        }
+        let m = p.mirror();
+        m.validity().map_err(|e| format!("mirror of extreme root {:?} invalid: {}", fen, e))?;
+        out.push(Root { name: name.to_string(), pos: p });
+        out.push(Root { name: format!("{} [mirrored]", name), pos: m });
+    }
+    Ok(out)
+}
+
 pub struct Root {
     pub name: String,
     pub pos: Pos,
